@@ -72,11 +72,17 @@ def LayerWellFormed : Prop :=
     WalkOK walk → TargetsOK layerOf n walk →
     ∀ L ∈ splitOuts layerOf n walk, layerWellFormed L = true
 
+/-- owned entries are written to a group layer (`packageToWriter` only holds group writers;
+`layerOfGroups` returns an index below `groups.length`) -/
+def OwnersBelow (layerOf : Text → Nat) (n : Nat) (walk : List WEntry) : Prop :=
+  ∀ f ∈ walk, ∀ p, f.owner = some p → layerOf p < n
+
 /-- the top layer is exactly the unowned entries in walk order with their true headers; in
-particular it holds every directory with its real header (ModTime included) -/
+particular it holds every directory with its real header (ModTime included).
+(Without `OwnersBelow` the statement is false: an owner mapped to index `n` lands in top.) -/
 def TopHasTrueDirs : Prop :=
   ∀ (layerOf : Text → Nat) (n : Nat) (walk : List WEntry),
-    WalkOK walk → TargetsOK layerOf n walk → DirsUnowned walk →
+    WalkOK walk → TargetsOK layerOf n walk → DirsUnowned walk → OwnersBelow layerOf n walk →
     (splitOuts layerOf n walk).getD n [] =
       (walk.filter (fun f => f.owner.isNone)).map (·.toEntry)
 
